@@ -16,7 +16,7 @@ def jobs(tier):
     J.append(ksjob('unbuf_1s2v_1r', SRC, 2, 8, ['CAP=0', 'SCEN=1'], desc='unbuffered: 1 sender x 2 values, 1 receiver', stuck_legal=True, timeout=900))
     if not q: J.append(ksjob('unbuf_2s_1r', SRC, 3, 8, ['CAP=0', 'SCEN=0'], desc='unbuffered: 2 senders, 1 receiver', stuck_legal=True, timeout=3000, mem_gb=8))      # 10-20 min with the symbolic clock: thorough tier
     if not q: J.append(ksjob('unbuf_2try_2r', SRC, 4, 8, ['CAP=0', 'SCEN=4', 'TRY'], desc='unbuffered: 2 try_send callers, 2 receivers', stuck_legal=True, timeout=1500, mem_gb=10))
-    if not q: J.append(ksjob('unbuf_2s_2r', SRC, 4, 10, ['CAP=0', 'SCEN=4'], desc='unbuffered: 2 senders, 2 receivers', stuck_legal=True, timeout=2400, mem_gb=12))
+    if os.environ.get('VERIF_EXPERIMENTAL'): J.append(ksjob('unbuf_2s_2r', SRC, 4, 10, ['CAP=0', 'SCEN=4'], desc='unbuffered: 2 senders, 2 receivers', stuck_legal=True, timeout=2400, mem_gb=12))
     if os.environ.get('VERIF_EXPERIMENTAL'): J.append(ksjob('buf1_1s2v_1r', SRC, 2, 8, ['CAP=1', 'SCEN=1'], desc='buffered capacity 1: 1 sender x 2 values, 1 receiver', stuck_legal=True, timeout=1500, mem_gb=16, shims=['memalign.c']))
     # buffered-channel scenarios (buf1_1s2v_1r, buf2_1s2v_2r with CAP=1/2) exist in the harness but run out of memory (8 GB, 16 min): not registered
     return J
